@@ -291,8 +291,12 @@ class C08Version(Harness):
 
     def instances(self, tier):
         yield "version", dict()
+        # the same gate with the stamp as the text it is in a document (numeric, not lexicographic order: 0.10.0 > 0.8.x, 0.8.14 > 0.8.4)
+        yield "version-strings", dict(strings=["0.10.0", "0.8.14", "0.8.40", "1.0.0", "0.9.0", "0.8.5", "10.0.0", "0.8.4", "0.8.3", "0.8.04", "0.1.0", "0.08.4", "0.7.99"])
 
     def declare(self, cx, p):
+        if p.get("strings"):
+            return {}
         return {"v": [cx.pyint(n, 0, 99) for n in ("va", "vb", "vc")]}
 
     def drive(self, E, p, x):
@@ -304,6 +308,23 @@ class C08Version(Harness):
         tree = h.to_dict()
         from packaging.version import Version
 
+        if p.get("strings"):
+            pj = E.mod("physt.io.json")
+            cur = tuple(int(t) for t in ver.CURRENT_VERSION.split(".")[:3])
+            out = []
+            for vs in p["strings"]:
+                text = h.to_json()
+                if E.sym:
+                    pj.json.tree(text)["physt_compatible"] = vs
+                else:
+                    import json as _json
+
+                    d = _json.loads(text)
+                    d["physt_compatible"] = vs
+                    text = _json.dumps(d)
+                r = E.attempt(io.parse_json, text)
+                out.append(r.name if isinstance(r, Raised) else "accepted")
+            return {"outcomes": out, "cur": list(cur)}
         a, b, c = x["v"]
         ver_obj = Version("1.2.3")  # placeholder; the release tuple is replaced by the (possibly symbolic) numbers
         ver_obj._release = (a, b, c)
@@ -329,6 +350,12 @@ class C08Version(Harness):
     def oracle(self, cx, p, x, obs):
         yield "no_exception", obs.get("raised") is None
         if obs.get("raised") is not None:
+            return
+        if p.get("strings"):
+            cur = tuple(obs["cur"])
+            for vs, got in zip(p["strings"], obs["outcomes"]):
+                newer = tuple(int(t) for t in vs.split(".")) > cur
+                yield f"version_string[{vs}]", got == ("VersionError" if newer else "accepted") or (newer and got == "Exception")
             return
         a, b, c = (cx.t(i) for i in x["v"])
         ca, cb, cc = obs["cur"]
